@@ -510,6 +510,29 @@ pub fn integrity<G: AffineRepr>(curve: &str, ci: u64, seed: u64, tier: &str, out
                 note(c, format!("adaptive-blinding-compensation-dir{}", dir), &b, &mut cnt, &mut first);
             }
         }
+        // (b'') adaptive compensation between second-phase commitments of a one-phase proof: choose K, read x from the
+        // verifier's run on the altered proof, publish (A_I2, A_O2) = (-x K, K) resp. (A_O2, S2) = (-x K, K).  The terms
+        // u x A_I2 + u x^2 A_O2 cancel; sound only if these points are absorbed before x is derived.
+        if *n2 == 0 {
+            for pair in 0..2 {
+                let kpt: G = (pc.B.into_group() * F::<G>::rand(&mut rng)).into_affine();
+                let (lo, hi) = if pair == 0 { (3usize, 4usize) } else { (4usize, 5usize) };
+                let mut p1 = proof_parts(&proof);
+                p1.points[hi] = kpt;
+                p1.points[lo] = kpt;
+                let pf1 = match proof_from_parts(&p1) { Some(p) => p, None => continue };
+                let vr = run_verifier::<G>(b"hostile", &prog, &pr.commitments, &pf1, &pc, &bp);
+                let ch: Vec<F<G>> = crate::comp_r1cs::chals::<F<G>>(&vr.log_scalars);
+                if ch.len() < 4 { continue; }
+                let x = ch[3];
+                let mut p2 = proof_parts(&pf1);
+                p2.points[lo] = (-(kpt.into_group() * x)).into_affine();
+                let b = enc(&p2);
+                let c = classify(&b, "adaptive2");
+                tried += 1;
+                note(c, format!("adaptive-phase2-point-compensation-pair{}", pair), &b, &mut cnt, &mut first);
+            }
+        }
         let _ = writeln!(out, "ADAPT {} {} total={} decode_rejected={} identical={} verify_rejected={} accepted={} panicked={} first={}", curve, pi, tried, cnt[0], cnt[1], cnt[2], cnt[3], cnt[9], first);
         // (c) all pairwise swaps of point fields
         let mut cnt = [0usize; 10];
